@@ -168,7 +168,7 @@ Definition ex_linked := link true false [0] ex_prog.
    c = g() is impure and stays; "unused" and "dead" go *)
 Example ex_linked_live :
   mark ex_linked (default_fuel ex_linked) =
-  Some [IPart 1 2; IFile 1; IPart 1 1; IPart 0 2; IPart 0 3; IPart 0 1; IFile 0].
+  Some [IPart 1 1; IPart 0 2; IPart 0 3; IPart 0 1; IPart 1 2; IFile 1; IFile 0].
 Proof. vm_compute. reflexivity. Qed.
 Example ex_parts_check :
   HarnessBuild.parts_ok (true, [(3%Z, [([1%Z], [2%Z], true)]); (0%Z, [([3%Z], [1%Z], true); ([2%Z], [], false)])],
